@@ -24,8 +24,8 @@ import propmap as PM
 REPO = os.environ.get('VERIF_REPO', '/repo')
 CONTRACTS = os.path.join(HERE, 'contracts')
 CACHE = os.path.join(HERE, '.cache')
-EVID = os.path.join(HERE, 'evidence')
-REPLAY = os.path.join(HERE, 'replay')
+EVID = os.environ.get('VERIF_EVID_DIR', os.path.join(HERE, 'evidence'))
+REPLAY = os.environ.get('VERIF_REPLAY_DIR', os.path.join(HERE, 'replay'))
 LEDGER = os.path.join(HERE, 'baseline_obligations.json')
 FINDINGS = os.path.join(HERE, 'known_findings.json')
 TRUSTED = os.path.join(HERE, 'trusted_base.json')
@@ -318,4 +318,11 @@ if __name__ == '__main__':
         sys.exit(main())
     except W.WeaveError as e:
         print('UNDECIDED: weaving failed: %s' % e)
+        sys.exit(2)
+    except SystemExit:
+        raise
+    except BaseException as e:      # a crash of the machinery is never a verdict
+        import traceback
+        traceback.print_exc()
+        print('UNDECIDED: internal error in the checking machinery: %r' % (e,))
         sys.exit(2)
